@@ -52,6 +52,8 @@ func a8(s string) uint8 {
 	return uint8(v)
 }
 
+var snTieReported bool
+
 func akaDerive(a []string) string {
 	ue := tglib.NewRanUeContext(aStr(a[0]), 1, a8(a[1]), a8(a[2]))
 	subs := tglib.GetAuthSubscription(aStr(a[4]), aStr(a[5]), aStr(a[6]))
@@ -161,7 +163,7 @@ func akaDeriveChild(a []string) string {
 	cmd.Stdout = &out
 	err := cmd.Run()
 	for _, line := range strings.Split(out.String(), "\n") {
-		if i := strings.IndexByte(line, '\t'); i >= 0 && strings.HasPrefix(line, "aka_derive ") {
+		if i := strings.IndexByte(line, '\t'); i >= 0 && i+1 < len(line) && strings.HasPrefix(line, "aka_derive ") { // an op line without a result: the child ended inside the op
 			return line[i+1:]
 		}
 	}
@@ -438,8 +440,17 @@ func akaDomain(e *emitter) {
 		mnc := e.digits(2 + c%2)
 		snName, ok := akaSnName(mnc, mcc)
 		if !ok {
-			e.op("aka_snname", sx(mnc), sx(mcc)) // reports the broken tie
-			return
+			// the source no longer has the two assignments: report the broken tie (once) and go on with the serving network
+			// name of TS 24.501 9.12.1, so that the ops that reach the derivation through RegisterUE still run
+			if !snTieReported {
+				snTieReported = true
+				e.op("aka_snname", sx(mnc), sx(mcc))
+			}
+			if len(mnc) == 2 {
+				snName = "5G:mnc0" + mnc + ".mcc" + mcc + ".3gppnetwork.org"
+			} else {
+				snName = "5G:mnc" + mnc + ".mcc" + mcc + ".3gppnetwork.org"
+			}
 		}
 		amf := amfs[e.rng.Intn(len(amfs))]
 		kS, opS := e.hexStr(k), e.hexStr(op)
